@@ -89,7 +89,7 @@ func NewNode(ctx context.Context, o NodeOpts) (*Node, error) {
 		return nil, err
 	}
 	n.RulesDir = dir
-	n.Rules, err = standardrules.New(ctx, standardrules.WithStoragePath(dir), standardrules.WithAdminIPs(o.AdminIPs))
+	n.Rules, err = newRules(ctx, standardrules.WithStoragePath(dir), standardrules.WithAdminIPs(o.AdminIPs))
 	if err != nil {
 		return nil, err
 	}
@@ -160,7 +160,7 @@ func NewNode(ctx context.Context, o NodeOpts) (*Node, error) {
 }
 
 func (n *Node) Close(ctx context.Context) {
-	_ = n.Rules.Close(ctx)
+	_ = closeRules(ctx, n.Rules)
 	_ = os.RemoveAll(n.RulesDir)
 }
 
